@@ -128,6 +128,9 @@ mod rewind;
 pub mod server;
 pub mod service;
 pub mod stream;
+#[cfg(feature = "verif-hooks")]
+#[doc(hidden)]
+pub mod verif_hooks;
 
 pub use body::Body;
 #[cfg(feature = "client")]
